@@ -80,9 +80,20 @@ def make_session(role: str, state: str) -> t.Any:
     tpl = _TEMPLATES.get((role, state))
     if tpl is None:
         tpl = SS.new_session(role)
-        for ev in dict(STATES[role])[state]:
-            SS.apply_event(role, tpl, ev)
-        tpl.data_to_send()
+        if state == "pending-output":
+            # OPENED, operations outstanding, and accepted output the application has only partly drained
+            if role == "client":
+                tpl.search_request()
+                tpl.extended_request("1.2")
+            else:
+                SS.apply_event(role, tpl, ("recv", "SearchReq", 1))
+                SS.apply_event(role, tpl, ("recv", "ExtReq", 2))
+                tpl.search_result_entry(1, "cn=e", [])
+            tpl.data_to_send(3)
+        else:
+            for ev in dict(STATES[role])[state]:
+                SS.apply_event(role, tpl, ev)
+            tpl.data_to_send()
         _TEMPLATES[(role, state)] = tpl
     return copy.deepcopy(tpl)
 
@@ -105,7 +116,7 @@ def check_response(role: str, e: t.Any) -> t.Optional[t.Tuple[str, str]]:
     except ber.BerError as x:
         return (f"response-malformed:{role}:{resp.hex() if len(resp) <= 12 else K.exc_key(x)}", f"ProtocolError.response {resp.hex()[:60]} is not well-formed RFC 4511: {x}")
     op = v["protocolOp"]
-    if role == "server":
+    if role == "server":  # (decode_message already insists on exactly one PDU with nothing before or after it)
         if not (op[0] == "extendedResp" and v["messageID"] == 0 and op[1]["responseName"] == R.NOTICE_OID):
             return ("response-not-notice:server", f"server error notification is {op[0]} id {v['messageID']} name {op[1].get('responseName') if isinstance(op[1], dict) else None}")
     else:
@@ -226,11 +237,17 @@ def _work1(job: t.Tuple[t.Any, ...]) -> evid.Local:
             for v in range(256):
                 if v != b[i]:
                     _run_input(loc, b[:i] + bytes([v]) + b[i + 1 :], fam, ("server", "client"), ("fresh", "open-outstanding") if _X["thorough"] else ("open-outstanding",), "whole", True, {"fam": fam, "base": bi, "pos": i, "value": v})
+    elif fam == "valid":
+        # the base messages themselves, from every prior state incl. one with undrained output
+        for bi, b in list(enumerate(_X["bases"]))[job[1] : job[1] + 1]:
+            _run_input(loc, b, fam, ("server", "client"), ("fresh", "binding", "open-outstanding", "pending-output"), "splits", True, {"fam": fam, "base": bi})
+            _run_input(loc, b + b, fam, ("server", "client"), ("open-outstanding", "pending-output"), "bytewise", True, {"fam": fam, "base": bi, "twice": True})
     elif fam == "truncate":
         bi = job[1]
         b = _X["bases"][bi]
         for i in range(len(b)):
             _run_input(loc, b[:i], fam, ("server", "client"), ("fresh", "binding", "open-outstanding"), "bytewise", True, {"fam": fam, "base": bi, "keep": i})
+            _run_input(loc, b[:i] + b"\xff" * 3, fam, ("server", "client"), ("pending-output",), "whole", True, {"fam": fam, "base": bi, "keep": i, "junk": True})
     elif fam == "nodes":
         bi, mode = job[1], job[2]
         b = _X["bases"][bi]
@@ -314,7 +331,7 @@ def run(ctx: evid.Ctx) -> None:
         if thorough:
             jobs.append(("node-pairs", bi))
     _X["known_all"] = set(ctx.known)
-    jobs += [("states", "client", 3 if thorough else 2), ("states", "server", 2 if thorough else 1)]
+    jobs += [("states", "client", 3 if thorough else 2), ("states", "server", 2 if thorough else 1)] + [("valid", i) for i in range(len(bases))]
     nstep = 1 if thorough else 25
     for tagb in (0xA2, 0xA0, 0xA1):
         for form in ("min", "84"):
